@@ -60,7 +60,7 @@ pub fn gen(rng: &mut Rng, n: usize, sink: &mut Sink, focus: &str) {
         };
         let out = sink.exec(&format!("deploy token-manager {} {} {}", hex::encode(&owner), hex::encode(&tm), args(&a)));
         for i in 0..6 {
-            sink.exec(&format!("acct {} 10000000000000000000 {}:0:1000000,{}:0:1000000", hex::encode(user(i)), TOK, OTHER));
+            sink.exec(&format!("acct {} 10000000000000000000 {}:0:1000000,{}:0:1000000,{}:3:1000000", hex::encode(user(i)), TOK, OTHER, TOK));
         }
         if !out.starts_with("ok") {
             continue;
@@ -177,6 +177,9 @@ pub fn gen(rng: &mut Rng, n: usize, sink: &mut Sink, focus: &str) {
                             ("0".to_string(), format!("{}:0:{}", OTHER, amt))
                         } else if rng.chance(1, 15) {
                             (amt.to_string(), "-".to_string())
+                        } else if rng.chance(1, 12) && tokname == TOK {
+                            // the manager's identifier, but a semi-fungible instance of it (non-zero nonce)
+                            ("0".to_string(), format!("{}:3:{}", tokname, amt.max(1)))
                         } else {
                             ("0".to_string(), format!("{}:0:{}", tokname, amt))
                         };
